@@ -7,5 +7,6 @@ CONSTANTS
   WR <- Write
   TD <- ToDecBug
   NT <- NumText
+  NTL <- NumTextLoc
 INVARIANTS LawDecRoundTrip
 CHECK_DEADLOCK FALSE
